@@ -35,7 +35,7 @@ def ids(term):
 
 
 def spec_of(c):
-    return {k: c[k] for k in ("id", "kind", "type", "t", "n", "vals", "subs", "mutate", "corrupt")}
+    return {k: c[k] for k in ("id", "kind", "type", "t", "n", "vals", "subs", "mutate", "corrupt", "cancel")}
 
 
 def main():
@@ -44,6 +44,7 @@ def main():
         "cryptography is symbolic in the model: the combination of a share map verifies under validator v's group key for root rho iff the map has >= t entries and every entry (i, s) is the signature of v's share i over rho (algebra: C08; unforgeability and the soundness of herumi's pairing check are trusted). The correspondence run compares exactly this definition with herumi on every generated case",
         "signing root (domain, epoch, message root) is an injective function of the signed content (hypothesis of C09_published_valid, not an axiom)",
         "N1: 'repeat a share => nothing published' is proved in the form the code has: fewer than t DISTINCT share indices => nothing; with surplus partials a repeated share index is overwritten (last wins) and a valid object is still published (C09_repeat_with_surplus_still_valid)",
+        "the context passed to Aggregate is not consulted by Aggregate itself; the harness wraps the injected verifier to cancel the caller's context at scripted moments and calls the real verifier with a context detached from that cancellation (so the beacon-mock client is not affected); the model's answer is independent of cancellation",
         "threshold t >= 1 (sigagg.New refuses t <= 0); t = 1 is exercised only on valid inputs because with a single key all 'shares' coincide",
         "phase0/altair proposals are refused by the verifier ('unsupported version'): fail-closed, not generated",
         "the harness's signing root is computed from the raw eth2 objects (domain constants, epoch, hash-tree-root) independently of core/eth2signeddata.go and eth2util/signing; SSZ hashing, the beacon mock's domain computation and herumi BLS are trusted",
@@ -63,13 +64,15 @@ def main():
     R.coverage["distinct_nontrivial"] = len(seen)
     R.coverage["rule"] = ("one evaluation = one call of sigagg.Aggregate on the real component (sigagg.New + sigagg.NewVerifier over beaconmock) with real tbls shares; "
                           "non-trivial = call whose batch contains at least one corrupted/irregular partial (wrong share's signature, wrong/out-of-range/zero/negative share index, other message, other domain, other fork, "
-                          "other validator's share, zero/truncated/random/infinity/foreign-key signature, bad length, too few, repeats with and without surplus, payload taken from a non-contributing partial, bare-signature objects, attestation ValidatorIndex variants); "
+                          "other validator's share, zero/truncated/random/infinity/foreign-key signature, bad length, too few, repeats with and without surplus, payload taken from a non-contributing partial, bare-signature objects, attestation ValidatorIndex variants), or whose context is cancelled before the call / right after the k-th verifier invocation (multi-validator batches with 0..2 bad validators at every placement, each repeated because Go's map order is random); "
                           "distinct by hash of (type, abstract label)")
     dist = collections.Counter()
     for c in cs:
         dist["kind:" + c["kind"]] += 1
         dist["outcome:" + (c["err"] or "published")] += 1
         dist["validators:%d" % len(c["vals"] or [])] += 1
+        if c.get("cancel"):
+            dist["ctx_cancel:%s" % ("before_call" if c["cancel"] == 1 else "after_verify_%d" % (c["cancel"] - 1))] += 1
         for k in c.get("corrupt") or []:
             dist["corruption:" + k] += 1
     types = collections.Counter(c["type"] for c in cs)
